@@ -373,9 +373,15 @@ func (server *Server) responseMessage(conn io.Writer, msg *Message) error {
 
 // handleMessage handles a client message.
 func (server *Server) handleArrayMessage(conn *Conn, arrayMsg *proto.Array) (*Message, error) {
+	if arrayMsg == nil {
+		return nil, ErrEmptyCommand
+	}
 	firstMsg, err := arrayMsg.Next()
 	if err != nil {
 		return nil, err
+	}
+	if firstMsg == nil {
+		return nil, ErrEmptyCommand
 	}
 
 	// Nested array ?
